@@ -58,3 +58,6 @@ func VerifEventInfo[T any](ev any) VerifEvent[T] {
 	}
 	return VerifEvent[T]{Kind: "unknown"}
 }
+
+// VerifQueueLens reports the number of queued callback events and queued enable requests.
+func VerifQueueLens[T any](d *Dials[T]) (cbch, monCtl int) { return len(d.cbch), len(d.monCtl) }
